@@ -219,8 +219,8 @@ def countDone (a : Args) (n : Int) : Bool :=
     the output when its date lies in `lo..hi` -/
 def push (a : Args) (lo hi : Int) (c : Cut) (x : Inst) : Cut :=
   if c.done then c
+  else if afterUntil a x then { c with done := true }     -- the instants arrive in increasing order
   else if x.micros < startMicros a then c
-  else if afterUntil a x then { c with done := true }
   else if countDone a c.n then { c with done := true }
   else if x.ord > hi then { c with done := true }
   else { out := if lo ≤ x.ord then x :: c.out else c.out, n := c.n + 1, done := false }
